@@ -120,15 +120,23 @@ func expectation(cs Case, rq scen.Req) *expect {
 			e.skip["REQUEST_BODY"] = "documented as available for urlencoded bodies only"
 		case "json":
 			for _, it := range cs.Items {
-				post = append(post, kv{jsonKey(it), it.Value})
+				post = append(post, kv{jsonKey(cs, it), it.Value})
 				if it.Kind == "l" {
 					// coraza additionally publishes the length of every array under the array's key
 					for _, v := range []string{"ARGS_POST", "ARGS"} {
-						e.opt[v] = append(e.opt[v], kv{"json." + it.Name, "1"})
+						e.opt[v] = append(e.opt[v], kv{jsonPrefix(cs) + it.Name, "1"})
 					}
 					for _, v := range []string{"ARGS_POST_NAMES", "ARGS_NAMES"} {
-						e.opt[v] = append(e.opt[v], kv{"", "json." + it.Name})
+						e.opt[v] = append(e.opt[v], kv{"", jsonPrefix(cs) + it.Name})
 					}
+				}
+			}
+			if cs.Style == "toparr" {
+				for _, v := range []string{"ARGS_POST", "ARGS"} {
+					e.opt[v] = append(e.opt[v], kv{"json", "1"})
+				}
+				for _, v := range []string{"ARGS_POST_NAMES", "ARGS_NAMES"} {
+					e.opt[v] = append(e.opt[v], kv{"", "json"})
 				}
 			}
 			e.skip["REQUEST_BODY"] = "documented as available for urlencoded bodies only"
@@ -427,7 +435,7 @@ func siblings(cs Case, sp varSpec, missing, have []kv) string {
 	name := func(it Item) string {
 		switch {
 		case cs.Chan == "json":
-			return jsonKey(it)
+			return jsonKey(cs, it)
 		case sp.name == "FILES":
 			return it.Sub
 		}
@@ -479,8 +487,15 @@ func siblings(cs Case, sp varSpec, missing, have []kv) string {
 	return ""
 }
 
-func jsonKey(it Item) string {
-	k := "json." + it.Name
+func jsonPrefix(cs Case) string {
+	if cs.Style == "toparr" {
+		return "json.0."
+	}
+	return "json."
+}
+
+func jsonKey(cs Case, it Item) string {
+	k := jsonPrefix(cs) + it.Name
 	switch it.Kind {
 	case "n":
 		k += "." + it.Sub
@@ -498,9 +513,9 @@ func jsonCollision(cs Case, missing []kv) string {
 		ne, nf := 0, 0
 		var keys []string
 		for _, it := range cs.Items {
-			keys = append(keys, jsonKey(it))
+			keys = append(keys, jsonKey(cs, it))
 			if it.Kind == "l" {
-				keys = append(keys, "json."+it.Name) // the array-length entry coraza publishes
+				keys = append(keys, jsonPrefix(cs)+it.Name) // the array-length entry coraza publishes
 			}
 		}
 		for _, k := range keys {
